@@ -1,4 +1,4 @@
-import JunoModel.C17.ProofsMisc
+import JunoModel.C17.ProofsGlue
 /-!
 C17 — the recorded L1 head is always a finalised, still-canonical L1 state commit.
 Property theorems about the code AS IT IS in /repo (`guard = true`, i.e. with commit 5084dce);
@@ -33,7 +33,17 @@ Property clauses and where they are:
       transcription (`run_filter_data` in Proofs); evidence is the harness, not a theorem
   the geth forwarding layer ....................................... model `forwardStream = map decodeLog` is a
       transcription (`forward_map_facts` in Proofs); evidence is the harness
-  consumers (finality status, pruning anchor) ..................... NOT covered beyond `feed_in_order`
+  what is handed to `Blockchain.SetL1Head` / listener / feed ...... `head_is_last_notification`,
+      `notifications_never_above_finalised`, `notifications_l2_monotone` (every reachable state, by
+      induction over the trace)
+  consumers: finality status never flips back ..................... `finality_status_never_reverts`
+             pruning anchor (feed) never moves back ............... `pruning_anchor_monotone`
+      (the consumers' own code — RPC handlers, pruner — belongs to other properties)
+  retry loops (`finalisedHeight`, `subscribeToUpdates`), cancellation `poll_retry_is_tick`, `subscribe_retry`
+  the live subscription under back-pressure (64/128-slot channels) `forward_backpressure_lossless`,
+      `forward_stalled_consumer_loses_nothing`, `forward_drains`
+  construction defaults (`NewClient`, chunk 1000) ................. `default_chunk_scan_terminates`
+  what `CatchUpL1Head` returning nil means ........................ `oneshot_success_records_top`
 -/
 namespace Juno.C17.Props
 open Juno.C17
@@ -365,6 +375,213 @@ theorem feed_in_order (ops : List FeedOp) :
   simp only [List.nil_append] at h
   exact List.Sublist.trans (List.sublist_append_left _ _) h
 
+/-! ## what is handed to `Blockchain.SetL1Head`, the listener and the L1-head feed (round 4)
+
+`runNotes g s tr` is the list of heads passed to `Blockchain.SetL1Head` while the event loop processes
+`tr` — each is sent on the feed, written under the `L1Height` key and reported to the listener. -/
+
+/-- In every reachable state the stored head is the last head handed out, or — if none was — the head
+found at start-up: the database record, the listener and the feed never disagree, and nothing else
+changes the record (lifts the per-poll fact to all traces). -/
+theorem head_is_last_notification (g : Bool) (s : State) (tr : List Ev) :
+    (run g s tr).head = lastOr s.head (runNotes g s tr) :=
+  run_head_lastOr g s tr
+
+/-- EVERY head ever handed out (not only the last one: the feed's consumers see each of them) is the
+commit of an event that, at the poll that produced it, was delivered, not reported removed and at or
+below the finalised height that poll reported. No assumption on the provider. -/
+theorem notifications_never_above_finalised (h0 : Option Head) (tr : List Ev) :
+    ∀ h ∈ runNotes true (State.init h0) tr,
+      ∃ a F b, tr = a ++ Ev.tick F :: b ∧ ∃ n u, LiveExact a n u ∧ u.l1 ≤ F ∧ h = u.toHead := by
+  intro h hh
+  obtain ⟨a, F, b, hab, e, he, hF, heq⟩ := runNotes_origin true h0 tr h hh
+  exact ⟨a, F, b, hab, e.1, e.2, live_sub_exact he, hF, heq⟩
+
+/-- The Starknet block numbers of the heads handed out never decrease, and none is below the head
+the database held at the start — every state, every trace, no assumption. -/
+theorem notifications_l2_monotone (s : State) (tr : List Ev) :
+    (runNotes true s tr).Pairwise (fun a b => a.l2 ≤ b.l2) ∧
+    ∀ h ∈ runNotes true s tr, optLe (headL2 s) (some h.l2) :=
+  ⟨runNotes_sorted s tr, runNotes_ge s tr⟩
+
+/-- Over a whole life under `Run` the heads handed out (the catch-up's own, then the event loop's) are
+those of ONE trace — the same combined trace as in `life_is_trace`: the three theorems above cover
+the catch-up's notification as well. -/
+theorem life_notifications_are_trace (g : Bool) (s : State) (cfg : Startup) (tr : List Ev) (la f1 : Nat)
+    (hg : ensureChainID cfg.chainId = .proceed) (hla : cfg.latest = some la)
+    (hf : cfg.fin₁ = some f1) :
+    lifeNotes g s cfg false tr = runNotes g s (startUpTrace s cfg la f1 ++ tr) :=
+  lifeNotes_trace g s cfg tr la f1 hg hla hf
+
+/-- Pruning anchor: whatever a subscriber of the L1-head feed (one-slot buffer, values skipped while
+the slot is full, any interleaving of sends and receives) gets out of the heads of a trace, the
+Starknet block numbers it sees never decrease. -/
+theorem pruning_anchor_monotone (s : State) (tr : List Ev) (ops : List FeedOp)
+    (hs : sentOf ops = runNotes true s tr) :
+    (subRun {} ops).received.Pairwise (fun a b => a.l2 ≤ b.l2) := by
+  have h := feed_invariant ops {} [] (by simp)
+  simp only [List.nil_append] at h
+  have hsub : (subRun {} ops).received.Sublist (sentOf ops) :=
+    List.Sublist.trans (List.sublist_append_left _ _) h
+  rw [hs] at hsub
+  exact List.Pairwise.sublist hsub (runNotes_sorted s tr)
+
+/-- Finality status: a Starknet block that `isL1Verified` (rpc `helpers.go`) reports as accepted on
+L1 stays accepted on L1, whatever the L1 node delivers afterwards. -/
+theorem finality_status_never_reverts (s : State) (tr : List Ev) (n : Nat)
+    (h : isL1Verified n s.head = true) : isL1Verified n (run true s tr).head = true := by
+  have hm := guard_run_mono s tr
+  unfold isL1Verified at h ⊢
+  cases hs : s.head with
+  | none => rw [hs] at h; cases h
+  | some a =>
+    rw [hs] at h
+    cases hr : (run true s tr).head with
+    | none => simp [headL2, hs, hr, optLe] at hm
+    | some b =>
+      simp [headL2, hs, hr, optLe] at hm
+      simp at h ⊢
+      omega
+
+/-! ## retry loops, cancellation, construction defaults (round 4) -/
+
+/-- `setL1Head` behind `finalisedHeight`'s retry loop: failed attempts change nothing; the first
+answer is the finalised height of the poll (exactly `k+1` provider calls after `k` failures); when the
+context ends before any answer, `setL1Head` returns without touching buffer or head. -/
+theorem poll_retry_is_tick (g : Bool) (s : State) (answers : List (Option Nat)) :
+    ((∀ a ∈ answers, a = none) → pollStep g s answers = (s, none)) ∧
+    (∀ k f t, answers = List.replicate k none ++ some f :: t →
+      pollStep g s answers = setL1Head g s f ∧ (finalisedHeightLoop answers).2 = k + 1) := by
+  refine ⟨?_, ?_⟩
+  · intro h
+    simp [pollStep, finalisedHeightLoop_none.mpr h]
+  · intro k f t hl
+    have h1 : (finalisedHeightLoop answers).1 = some f := by
+      subst hl
+      induction k with
+      | zero => simp [finalisedHeightLoop]
+      | succ k ih => simpa [List.replicate_succ, finalisedHeightLoop] using ih
+    obtain ⟨k', t', hl', hk'⟩ := finalisedHeightLoop_some h1
+    have : k' = k := by
+      rw [hl] at hl'
+      -- both splits put the first `some` at the same position
+      have key : ∀ (a b : Nat) (x y : Nat) (u v : List (Option Nat)),
+          List.replicate a none ++ some x :: u = List.replicate b none ++ some y :: v → a = b := by
+        intro a
+        induction a with
+        | zero => intro b x y u v h; cases b with
+          | zero => rfl
+          | succ b => simp [List.replicate_succ] at h
+        | succ a ih => intro b x y u v h; cases b with
+          | zero => simp [List.replicate_succ] at h
+          | succ b =>
+            simp only [List.replicate_succ, List.cons_append, List.cons.injEq, true_and] at h
+            rw [ih b x y u v h]
+      exact (key _ _ _ _ _ _ hl').symm
+    exact ⟨by simp [pollStep, h1], by rw [hk', this]⟩
+
+/-- `subscribeToUpdates`: the subscription in use is the first successful `WatchStateUpdate` attempt;
+every attempt before it failed; no success before the context ends = no subscription (`Run` returns). -/
+theorem subscribe_retry (l : List Bool) :
+    (subscribeLoop l = none ↔ ∀ b ∈ l, b = false) ∧
+    (∀ k, subscribeLoop l = some k → ∃ t, l = List.replicate k false ++ true :: t) := by
+  refine ⟨?_, fun k h => subscribeLoop_some h⟩
+  induction l with
+  | nil => simp [subscribeLoop]
+  | cons a t ih => cases a <;> simp [subscribeLoop, ih]
+
+/-- A client built by `NewClient` without `WithCatchUpChunkSize` scans with chunk 1000, and such a scan
+always terminates (the `chunk ≠ 0` side condition of the catch-up theorems is discharged for the node's
+own configuration); an explicit option is taken modulo 2^64 and only 0 can make the scan spin. -/
+theorem default_chunk_scan_terminates (hist : List SU) (fin : Nat) (failAt : Option Nat)
+    (latest : Nat) (buf : Buf) :
+    newClientChunk {} = 1000 ∧
+    (catchUpLoop hist fin (newClientChunk {}) failAt latest 0 buf [] []).result ≠ .hang ∧
+    (∀ o : Options, (catchUpLoop hist fin (newClientChunk o) failAt latest 0 buf [] []).result = .hang →
+      newClientChunk o = 0) := by
+  refine ⟨rfl, ?_, fun o h => catchUpLoop_hang _ _ _ _ _ _ _ _ _ h⟩
+  intro h
+  have := catchUpLoop_hang _ _ _ _ _ _ _ _ _ h
+  simp [newClientChunk, defaultCatchUpChunkSize] at this
+
+/-- What `CatchUpL1Head` returning nil means (the pruning migration relies on it): with the chain id
+verified at the first attempt, both heights read and no failing log query, the call returns nil and the
+database then holds the commit of the highest finalised log of the node's history — unless the head
+stored by an earlier life commits a later Starknet block, which is kept — or still `h0` when the
+history has no log at or below both heights. -/
+theorem oneshot_success_records_top (h0 : Option Head) (cfg : Startup) (rest : List ChainIdAns)
+    (la f1 : Nat) (hid : cfg.chainId = .ok :: rest) (hla : cfg.latest = some la)
+    (hf : cfg.fin₁ = some f1) (hq : cfg.failAt = none) (hh : ∀ u ∈ cfg.hist, u.removed = false)
+    (hc : cfg.chunk ≠ 0) (hfin : f1 ≤ cfg.fin₂) :
+    lifeErr cfg true = .none ∧
+    ((∃ u, CatchUpTop cfg.hist la cfg.fin₂ u ∧
+        (startUp true (State.init h0) cfg true).1.head =
+          (if skipCandidate true h0 u then h0 else some u.toHead)) ∨
+      ((∀ u ∈ cfg.hist, ¬ (u.l1 ≤ cfg.fin₂ ∧ u.l1 ≤ la)) ∧
+        (startUp true (State.init h0) cfg true).1.head = h0)) := by
+  refine ⟨?_, ?_⟩
+  · have hnf := catchUpLoop_failed cfg.hist f1 cfg.chunk la 0 [] [] []
+    -- the fall-through alternative of the `match` on the scan result needs `result ≠ failed`: `hnf`
+    simp only [lifeErr, hid, hla, hf, hq, if_true]
+  · have := catchUp_head_stored (latest := la) (fin₁ := f1) (fin₂ := cfg.fin₂) h0 hh hc hfin
+    simpa [startUp, hid, checkChainIDOnce, hla, hf, hq] using this
+
+/-- … and the stored head after a catch-up, in general (restart with a stored head included). -/
+theorem catchup_head_stored (h0 : Option Head) (hist : List SU) (latest fin₁ fin₂ chunk : Nat)
+    (hh : ∀ u ∈ hist, u.removed = false) (hc : chunk ≠ 0) (hfin : fin₁ ≤ fin₂) :
+    (∃ u, CatchUpTop hist latest fin₂ u ∧
+      (catchUp true (State.init h0) hist latest fin₁ chunk none fin₂).1.head =
+        (if skipCandidate true h0 u then h0 else some u.toHead)) ∨
+    ((∀ u ∈ hist, ¬ (u.l1 ≤ fin₂ ∧ u.l1 ≤ latest)) ∧
+      (catchUp true (State.init h0) hist latest fin₁ chunk none fin₂).1.head = h0) :=
+  catchUp_head_stored h0 hh hc hfin
+
+/-! ## a live subscription under back-pressure: `forwardStateUpdates` between two bounded channels (round 4)
+
+`Pipe` is the hand-off chain node → go-ethereum's queue → `gethEventsCh` (64) → the forwarder's hand →
+the client's `updateCh` (128) → event loop; a schedule is any list of `PipeOp`s, a step that is not
+enabled blocks (no-op). The forwarding layer has no timeout and no drop: these theorems are what a
+stall timeout, a non-blocking send or a coalescing forwarder would break. -/
+
+/-- For EVERY schedule — any pace of the client, any burst size: every log the L1 node pushed is in
+the chain exactly once and in order (decoded); what the client has received so far is a prefix of the
+decoded node stream; the two channels never exceed their capacities. -/
+theorem forward_backpressure_lossless (ops : List PipeOp) :
+    (Pipe.run {} ops).contents = forwardStream (arrivedOf ops) ∧
+    (Pipe.run {} ops).out <+: forwardStream (arrivedOf ops) ∧
+    (Pipe.run {} ops).ch.length ≤ watchForwarderBuffer ∧
+    (Pipe.run {} ops).sink.length ≤ updateChBuffer := by
+  have hc := pipe_run_contents {} ops
+  have hcap := pipe_run_caps {} ops (by simp) (by simp)
+  have h0 : ({} : Pipe).contents = [] := by simp [Pipe.contents, forwardStream]
+  rw [h0, List.nil_append] at hc
+  refine ⟨hc, ?_, hcap.1, hcap.2⟩
+  rw [← hc]
+  simp only [Pipe.contents, List.append_assoc]
+  exact List.prefix_append _ _
+
+/-- A client that does not receive at all (its event loop is busy — e.g. inside `finalisedHeight`'s
+retry loop — for however long) gets nothing and loses nothing: everything pushed meanwhile is still
+queued somewhere in the chain. -/
+theorem forward_stalled_consumer_loses_nothing (ops : List PipeOp)
+    (h : ∀ o ∈ ops, match o with | .consume => False | _ => True) :
+    (Pipe.run {} ops).out = [] ∧ (Pipe.run {} ops).contents = forwardStream (arrivedOf ops) :=
+  ⟨pipe_run_no_consume {} ops h, (forward_backpressure_lossless ops).1⟩
+
+/-- … and back-pressure always resolves: from every reachable state there is a continuation without
+new arrivals after which the client has received the whole decoded node stream. -/
+theorem forward_drains (ops : List PipeOp) :
+    ∃ more, (∀ o ∈ more, noArrive o = true) ∧
+      (Pipe.run {} (ops ++ more)).out = forwardStream (arrivedOf ops) := by
+  obtain ⟨more, hm, hw⟩ := pipe_drains (Pipe.run {} ops)
+  refine ⟨more, hm, ?_⟩
+  have hrun : Pipe.run {} (ops ++ more) = (Pipe.run {} ops).run more := by
+    simp [Pipe.run, List.foldl_append]
+  have h1 := (forward_backpressure_lossless (ops ++ more)).1
+  rw [arrivedOf_append, arrivedOf_noArrive more hm, List.append_nil] at h1
+  rw [hrun] at h1 ⊢
+  rw [← h1, pipe_weight_zero _ hw]
+
 /-! ## regression witness for the defect repaired by commit 5084dce (NOT about the current code) -/
 
 def e100 : SU := ⟨50, 0x500, 0x1500, 100, false⟩
@@ -485,5 +702,53 @@ example : CatchUpTop hist3 9 5 ⟨2, 0x20, 0x1020, 3, false⟩ := by
   have hm : w ∈ hist3 := this.1
   simp [hist3] at hm
   rcases hm with rfl | rfl | rfl <;> simp at this <;> omega
+
+/-! non-vacuity, round 4 -/
+
+/-- A trace with two notifications, a guard skip and a removal in between. -/
+def notesTrace : List Ev :=
+  [.upd logC, .tick 3, .upd logD, .upd { logD with removed := true }, .upd logD', .upd e90, .tick 200]
+example : runNotes true (State.init none) notesTrace = [logC.toHead, e90.toHead] := by decide
+example : (run true (State.init none) notesTrace).head = some e90.toHead := by decide
+example : runNotes true (State.init (some e100.toHead)) notesTrace = [] := by decide
+example : sentOf [.send logC.toHead, .recv, .send e90.toHead, .recv] =
+    runNotes true (State.init none) notesTrace := by decide
+example : isL1Verified 7 (State.init (some logC.toHead)).head = true ∧
+    isL1Verified 8 (State.init (some logC.toHead)).head = false ∧ isL1Verified 0 none = false := by decide
+example : pollStep true ⟨[(5, logD)], none⟩ [none, none, some 9, some 1] =
+    (⟨[], some logD.toHead⟩, some logD.toHead) ∧
+    (finalisedHeightLoop [none, none, some 9, some 1]).2 = 3 ∧
+    pollStep true ⟨[(5, logD)], none⟩ [none, none] = (⟨[(5, logD)], none⟩, none) := by decide
+example : subscribeLoop [false, false, true, false] = some 2 ∧ subscribeLoop [false] = none := by decide
+example : newClientChunk { chunk := some (2 ^ 64) } = 0 ∧ newClientChunk { chunk := some 7 } = 7 := by decide
+/-- `oneshot_success_records_top`: hypotheses satisfiable, both with a fresh database and with a
+stored head that is newer than everything the scan finds. -/
+def oneshotCfg : Startup := ⟨[.ok], some 9, some 5, hist3, 2, none, 5⟩
+example : oneshotCfg.chainId = .ok :: [] ∧ oneshotCfg.latest = some 9 ∧ oneshotCfg.fin₁ = some 5 ∧
+    oneshotCfg.failAt = none ∧ (∀ u ∈ oneshotCfg.hist, u.removed = false) ∧ oneshotCfg.chunk ≠ 0 ∧
+    5 ≤ oneshotCfg.fin₂ := by decide
+example : lifeErr { oneshotCfg with failAt := some 1 } true = .provider ∧
+    lifeErr { oneshotCfg with chainId := [.err, .ok] } true = .provider ∧
+    lifeErr { oneshotCfg with chainId := [.mismatch] } true = .mismatch ∧
+    lifeErr { oneshotCfg with chainId := [.err, .mismatch] } false = .mismatch ∧
+    lifeErr { oneshotCfg with chainId := [.err], failAt := some 0 } false = .none := by
+  refine ⟨?_, ?_, ?_, ?_, ?_⟩ <;> simp [lifeErr, oneshotCfg, ensureChainID, catchUpLoop, chunkFrom, filterLogs, hist3]
+example : lifeNotes true (State.init none) oneshotCfg false [.upd logD', .tick 7] =
+    [⟨2, 0x20, 0x1020⟩, logD'.toHead] := by
+  simp [lifeNotes, oneshotCfg, ensureChainID, catchUp, catchUpLoop, chunkFrom, filterLogs, hist3, State.init,
+    setL1Head, pickMax, pickStep, skipCandidate, applyStateUpdate, Buf.insert, Buf.prune, runNotes, stepNote, step,
+    SU.toHead, logD']
+example : skipCandidate true (some ⟨9, 0x90, 0x1090⟩) ⟨2, 0x20, 0x1020, 3, false⟩ = true ∧
+    skipCandidate true none ⟨2, 0x20, 0x1020, 3, false⟩ = false := by decide
+
+/-- The hand-off chain: a burst of 3 with a client that receives once in the middle. -/
+def pipeOps : List PipeOp :=
+  [.arrive ⟨1, 7, 2, 5, false⟩, .arrive ⟨1, 7, 2, 5, true⟩, .feed, .take, .put, .consume, .arrive ⟨3, 8, 4, 6, false⟩,
+   .feed, .take, .feed, .put, .put]
+example : (Pipe.run {} pipeOps).out = [⟨7, 2, 1, 5, false⟩] ∧ (Pipe.run {} pipeOps).sink = [⟨7, 2, 1, 5, true⟩] ∧
+    (Pipe.run {} pipeOps).ch = [⟨3, 8, 4, 6, false⟩] ∧ (Pipe.run {} pipeOps).hand = none := by decide
+example : ∀ o ∈ [PipeOp.arrive ⟨1, 7, 2, 5, false⟩, .feed, .take, .put, .put],
+    (match o with | .consume => False | _ => True) := by
+  intro o ho; simp at ho; rcases ho with rfl | rfl | rfl | rfl <;> trivial
 
 end Juno.C17.Props
